@@ -129,7 +129,7 @@ int main(int argc, char **argv) {
   int nfresh = a.thorough() ? 40 : 6;
   for (int i = 0; i < nfresh; i++) for (const char *w : {"P-256", "P-384", "P-521", "secp256k1", "ed25519", "ed448"}) KEYS.push_back(gen_key(w));
   if (a.thorough()) for (const char *w : {"rsa2048", "rsa2560", "rsa3072"}) KEYS.push_back(gen_key(w));
-  uint64_t n = a.thorough() ? 12000 : 700;
+  uint64_t n = a.thorough() ? 40000 : 700;
   std::string params = "seed=" + std::to_string(a.seed * 1000 + a.worker) + " max_success=" + std::to_string(n) + " max_size=100";
   setenv("RC_PARAMS", params.c_str(), 1);
   Rend lastr{}; std::string lastwhy, lastdoc; KeySpec lastk;
